@@ -1,6 +1,22 @@
 import Driver.Util
+import Driver.Limits
+import Driver.SilLimits
+import Driver.Sem
+import Driver.Trunc
+import Driver.TmplData
+import Driver.Retry
+import Driver.Gossip
+import Driver.Mesh
 -- engines of work area Limits: import your Driver.<Engine> modules above and list them here
 namespace Driver.Reg.Limits
 def engines : List (String × IO UInt32) := [
+  ("limits", Driver.runEngine Driver.Limits.engine),
+  ("sillimits", Driver.runEngine Driver.SilLimits.engine),
+  ("sem", Driver.runEngine Driver.Sem.engine),
+  ("trunc", Driver.runEngine Driver.Trunc.engine),
+  ("tmpldata", Driver.runEngine Driver.TmplData.engine),
+  ("retry", Driver.runEngine Driver.Retry.engine),
+  ("gossip", Driver.runEngine Driver.Gossip.engine),
+  ("mesh", Driver.runEngine Driver.Mesh.engine)
 ]
 end Driver.Reg.Limits
